@@ -100,10 +100,7 @@ func c05CLI(c *mon.Ctx, aText, bText string, o OptSet, yaml bool) {
 		c.Nontrivial(joinKey("cli", aText, bText, o.Name))
 	}
 	for _, bin := range Binaries {
-		if bin.V1 && o.Reading != ref.List {
-			// TODO(C17 phase): v1 hash-based readings
-			continue
-		}
+
 		for _, format := range []string{"jd", "patch", "merge"} {
 			if format == "merge" && !o.Merge || format != "merge" && o.Merge {
 				continue
@@ -112,6 +109,9 @@ func c05CLI(c *mon.Ctx, aText, bText string, o OptSet, yaml bool) {
 				continue
 			}
 			args := append([]string{}, cliFlags(o)...)
+			if bin.V1 && len(o.Keys) > 0 && o.Name != "SET+SetKeys(id)" {
+				args = append([]string{"-set"}, args...) // v1 reads arrays as sets only with -set
+			}
 			if format == "patch" {
 				args = append(args, "-f", "patch")
 			}
